@@ -43,6 +43,7 @@ PROP = dict(
           "and from inside the receive, send-complete and disconnected callbacks and shutdown(SHUT_WR) once everything is flushed; on TcpClient (and harness-owned TcpConnection) links the receive callback is "
           "re-registered on the live connection with thresholds going up and down ({0,1,4,7,8,16,64,100,1024,4096}) - only when nothing "
           "is buffered unpresented - followed by a peer write sized to reach the new threshold but, when lowered, not the old one. "
+          "In a third of the TcpClient-against-raw-listener cases a receiver is bound with TcpClient::bind() and unbound again at random: before start(), inside the disconnected callback (no connection object exists) and on a fresh connection; while bound the receiver must get exactly f[consumed, ...) (it consumes all), after unbind() it must never be handed a byte again, on this connection or the next. "
           "Monitors: raw peer - every byte read equals f at the next offset and never exceeds what send() accepted; receive callback "
           "- buffer content equals f[consumed, consumed+readable), never fewer bytes than presented before, at least the threshold, "
           "nothing after a reported close; shrink and copy - the unread window of the receive buffer and of its copy is byte-identical to "
@@ -106,5 +107,7 @@ PROP = dict(
                                "recv_buffer_copied_in_callback", "recv_buffer_copied_behind_consumed_prefix",
                                "peer_abortive_close_with_data_pending", "close_after_reset_checked",
                                "tcpclient_threshold_lowered_while_connected", "tcpclient_threshold_raised_while_connected",
-                               "rethreshold_presentation_checked", "rethreshold_between_new_and_old_threshold"]},
+                               "rethreshold_presentation_checked", "rethreshold_between_new_and_old_threshold",
+                               "receiver_bound_forwards", "bytes_forwarded_to_bound_receiver", "receiver_unbound_while-disconnected",
+                               "receiver_bound_while-disconnected", "receiver_unbound_while-connected"]},
 )
